@@ -42,6 +42,7 @@ THEOREMS = [
     "Stab.props.C08.C08_exclusive_cas",
     "Stab.props.C08.C08_exclusive_lock",
     "Stab.props.C08.C08_at_least_once_select",
+    "Stab.props.C08.C08_at_least_once_drain",
     "Stab.props.C08.C08_exhausted_moved_not_deleted",
     "Stab.props.C08.C08_replay_unchanged",
     "Stab.props.C08.C08_processor_ack_after_handler",
@@ -1360,6 +1361,43 @@ def _nontrivial(r) -> bool:
     return len(kinds) >= 4 and any(x[0] == "msg" for x in r.get("results", [("msg",)]))
 
 
+def real_clock_smoke() -> list[str]:
+    """no fake clock, SQLite's own datetime('now'): the few facts that do not depend on how much real time passes"""
+    _uninstall()
+    _set_tz(None)
+    lib.ensure_repo_on_path()
+    from stabilize.queue.sqlite.queue import SqliteQueue
+    import stabilize.queue.messages as M
+    d = lib.scratch_dir("c08rc")
+    out = []
+    try:
+        q = SqliteQueue(f"sqlite:///{d}/q.db", lock_duration=timedelta(seconds=60))
+        q._create_table()
+        q.push(M.StartWorkflow(execution_id="a"))
+        q.push(M.StartWorkflow(execution_id="b"), timedelta(seconds=30))
+        got = []
+        m1 = q.poll_one()
+        got.append(None if m1 is None else (m1.message_id, m1.attempts))
+        got.append(q.poll_one())                      # a is locked for 60 s, b is due in 30 s
+        q.reschedule(_Stub(2), timedelta(seconds=0))
+        m2 = q.poll_one()
+        got.append(None if m2 is None else (m2.message_id, m2.attempts))
+        q.ack(_Stub(1))
+        got.append(q.size())
+        q.reschedule(_Stub(2), timedelta(seconds=-1))   # a failed handler: lock cleared, due again
+        m3 = q.poll_one()
+        got.append(None if m3 is None else (m3.message_id, m3.attempts))
+        want = [("1", 1), None, ("2", 1), 1, ("2", 2)]
+        if got != want:
+            out.append(f"real-clock smoke run: got {got!r}, expected {want!r}")
+        q.close()
+    except Exception as e:      # noqa: BLE001
+        out.append(f"real-clock smoke run crashed: {type(e).__name__}: {e}")
+    finally:
+        lib.rm_rf(d)
+    return out
+
+
 def run(ctx) -> RunResult:
     import logging
     res = RunResult(rule="a sequence counts as non-trivial when it uses >= 4 operation kinds and at least one poll delivered a message; "
@@ -1388,6 +1426,8 @@ def run(ctx) -> RunResult:
         if _nontrivial(r):
             res.distinct_nontrivial += 1
 
+    for e in real_clock_smoke():
+        res.disagreements.append({"what": "with the real clock the queue does not behave as the model (and the fake-clock runs) say", "detail": e})
     try:
         # 1. named sequential corner cases
         for name, cfg, ops in named_cases():
@@ -1407,7 +1447,7 @@ def run(ctx) -> RunResult:
             metas.append({"stream": "tz", "name": name, "cfg": cfg, "tz": tz, "ops": r["ops"]})
             viols += _violations_of(r["found"], {"kind": "seq", "cfg": cfg, "tz": tz, "ops": r["ops"], "name": name})
         # 3. random sequential
-        nseq = 1500 if thorough else 260
+        nseq = 4000 if thorough else 400
         for i in range(nseq):
             cfg = random_cfg(rng)
             n_ops = rng.choice([8, 15, 25, 40, 40]) if not thorough else rng.choice([10, 25, 40, 60])
@@ -1421,7 +1461,7 @@ def run(ctx) -> RunResult:
         # 4. concurrent
         conc_errors = []
         conc = [(n, c, s, t, sc) for n, c, s, t, sc in conc_named()]
-        nconc = 400 if thorough else 70
+        nconc = 1500 if thorough else 150
         for i in range(nconc):
             c, s, t, sc = conc_random(rng)
             conc.append((f"random-{i}", c, s, t, sc))
